@@ -37,6 +37,12 @@
 //! the caches document (the engine reads with a wrong length); any outcome is
 //! accepted there and counted (`undefined_reads`).
 //!
+//! Root-cause attribution: a second reference model (`alt`) differs from the
+//! documented one in a single point — `DROP TABLE public.t` does not end the life
+//! of listings cached for `t`.  An answer the documented model forbids but `alt`
+//! permits is recorded under one stable root-cause key (shortest history kept);
+//! an answer both forbid is reported per history.
+//!
 //! De-duplication key: current files (content, mtime rank), the oracle's
 //! knowledge (seen versions, live listing snapshots with remaining lifetime) and
 //! the *real* contents of the three caches read through `list_entries()`
@@ -212,9 +218,6 @@ const ALL_OPS: [Op; 13] = [
 ];
 
 impl Op {
-    fn is_query(self) -> bool {
-        matches!(self, Op::QStar | Op::QCount | Op::QMinMax)
-    }
     fn sql(self) -> &'static str {
         match self {
             Op::QStar => "SELECT x FROM t",
@@ -435,6 +438,8 @@ struct QueryFacts {
     /// the answer differs from the reference over the current files (a permitted stale answer)
     stale_served: bool,
     undefined_read: bool,
+    /// the engine panicked during an undefined read (accepted, but reported as a counter)
+    undefined_panic: bool,
 }
 
 struct Outcome {
@@ -719,6 +724,7 @@ fn run_case(case: &Case) -> Result<RunResult, String> {
                     Ok((stale, undef)) => {
                         facts.stale_served = stale;
                         facts.undefined_read = undef;
+                        facts.undefined_panic = undef && matches!(&got, Err(e) if e.starts_with("panic:"));
                     }
                     Err(what) => match verdict(&p_alt) {
                         Ok(_) => causes.push((CAUSE_QUALIFIED_DROP, what)),
@@ -829,8 +835,8 @@ fn plant_from_env() -> Plant {
 
 fn explore(ctx: &Ctx) {
     let plant = plant_from_env();
-    let depth_parquet = ctx.pick(5usize, 6usize);
-    let depth_csv = ctx.pick(4usize, 5usize);
+    let depth_parquet = ctx.pick(5usize, 7usize);
+    let depth_csv = ctx.pick(4usize, 6usize);
     ctx.set_extra(
         "bounds",
         json!({
@@ -905,6 +911,7 @@ fn explore(ctx: &Ctx) {
                                 ("queries_file_reread_after_change", f.file_reread_after_change),
                                 ("queries_stale_but_permitted_answer", f.stale_served),
                                 ("queries_undefined_reads(accepted)", f.undefined_read),
+                                ("queries_undefined_reads_that_panicked(accepted)", f.undefined_panic),
                             ];
                             let mut any = false;
                             for (n, b) in flags {
